@@ -563,6 +563,8 @@ def _corpus_index(corpus):
     idx = _INDEX_CACHE.get(key)
     if idx is not None and idx[0] is corpus:
         return idx[1]
+    if len(_INDEX_CACHE) >= 4:
+        _INDEX_CACHE.clear()
     out = []
     for label, data in corpus:
         units, us = _unit_list(data)
@@ -579,7 +581,6 @@ def _corpus_index(corpus):
         nseq = codes.count(PC_END_OF_SEQUENCE)
         out.append({"label": label, "data": data, "fam": fam, "pics": any(c in PICTURE_CODES for c in codes),
                     "frags": any(c in FRAGMENT_CODES for c in codes), "ver": ver, "nseq": nseq})
-    _INDEX_CACHE.clear()
     _INDEX_CACHE[key] = (corpus, out)
     return out
 
